@@ -17,6 +17,13 @@ static void gen_values(Rnd& r, int mode, bool srcMulti, bool dstMulti, std::vect
 	int ns = r.chance(1, 8) ? 0 : r.range(1, r.chance(1, 3) ? 70 : 12);
 	int nd = r.chance(1, 8) ? 0 : r.range(1, r.chance(1, 3) ? 70 : 12);
 	int span = r.range(8, 90);
+	if (mode >= 10)      // big ordered trees: many nodes, several full memory-pool buffers on both sides (fast merge path)
+	{
+		mode -= 10; ns = r.range(150, 900); nd = r.range(150, 900); span = 100000;
+		for (int i = 0; i < ns; ++i) src.push_back(int64_t(i * 3 + (mode == 2 ? 50000 : 0)) * 100 + r.range(1, 49));
+		for (int i = 0; i < nd; ++i) dst.push_back(int64_t(i * 3 + (mode == 1 ? 50000 : 0)) * 100 + r.range(50, 99));
+		return;
+	}
 	std::set<int64_t> ks, kd;
 	for (int i = 0; i < ns; ++i)
 	{
@@ -293,7 +300,7 @@ static void map_scenario(Report& rep, const char* name, uint64_t seed, int srcMg
 static const char* SCEN[] = {
 	"merge_hs_hs_eq", "merge_hs_hs_ne", "merge_hsd_hsd", "merge_hs_hsd_from",
 	"merge_ts_ts", "merge_tsm_tsm", "merge_ts_tsm",
-	"merge_tsd_tsd_eq", "merge_tsd_tsd_eq_ordered", "merge_tsd_tsd_eq_ordered_rev", "merge_tsd_tsd_ne", "merge_tsdm_tsdm_eq", "merge_tsdm_tsdm_ordered", "merge_tsd_tsd_eq_touching", "merge_tsdm_tsdm_touching",
+	"merge_tsd_tsd_eq", "merge_tsd_tsd_eq_ordered", "merge_tsd_tsd_eq_ordered_rev", "merge_tsd_tsd_ne", "merge_tsdm_tsdm_eq", "merge_tsdm_tsdm_ordered", "merge_tsd_tsd_eq_touching", "merge_tsdm_tsdm_touching", "merge_tsd_tsd_eq_ordered_big", "merge_tsd_tsd_eq_ordered_rev_big",
 	"merge_ts_hs", "merge_hs_ts", "merge_hsd_tsm", "merge_tsd_hsd_from",
 	"extract_hs_hs", "extract_ts_ts", "extract_hs_hsd", "extract_ts_tsm", "extract_tsm_tsm",
 	"insert_range_hsd", "insert_range_ts", "insert_range_tsm", "insert_il_hs", "insert_il_tsd",
@@ -321,6 +328,8 @@ static void run_scenario(Report& rep, const std::string& s, uint64_t seed)
 	else if (s == "merge_tsdm_tsdm_ordered") merge_scenario<E, MkTSD<E, true>, MkTSD<E, true>>(rep, n, seed, 1, 1, 1, false);
 	else if (s == "merge_tsd_tsd_eq_touching") merge_scenario<E, MkTSD<E, false>, MkTSD<E, false>>(rep, n, seed, 1, 1, 3, false);
 	else if (s == "merge_tsdm_tsdm_touching") merge_scenario<E, MkTSD<E, true>, MkTSD<E, true>>(rep, n, seed, 1, 1, 3, true);
+	else if (s == "merge_tsd_tsd_eq_ordered_big") merge_scenario<E, MkTSD<E, false>, MkTSD<E, false>>(rep, n, seed, 1, 1, 11, false);
+	else if (s == "merge_tsd_tsd_eq_ordered_rev_big") merge_scenario<E, MkTSD<E, false>, MkTSD<E, false>>(rep, n, seed, 1, 1, 12, true);
 	else if (s == "merge_ts_hs") merge_scenario<E, MkTS<E, false>, MkHS<E>>(rep, n, seed, 1, 2, 0, false);
 	else if (s == "merge_hs_ts") merge_scenario<E, MkHS<E>, MkTS<E, false>>(rep, n, seed, 1, 1, 0, false);
 	else if (s == "merge_hsd_tsm") merge_scenario<E, MkHSD<E>, MkTS<E, true>>(rep, n, seed, 2, 1, 0, false);
